@@ -42,7 +42,7 @@ Concat(ss) == IF ss = <<>> THEN <<>> ELSE Head(ss) \o Concat(Tail(ss))
 
 Expected(s) ==
     CASE s.kind = "num"  -> Concat([i \in 1..Len(s.vals) |-> ValueBytes(s.vals[i], s.w, s.en)])
-      [] s.kind = "str"  -> [i \in 1..Len(s.chars) |-> s.chars[i]] \o (IF s.form \in {"cstr", "asciiz", "embedded"} THEN <<s.term>> ELSE <<>>)
+      [] s.kind = "str"  -> [i \in 1..Len(s.chars) |-> s.chars[i] % 256] \o (IF s.form \in {"cstr", "asciiz", "embedded"} THEN <<s.term>> ELSE <<>>)
       [] s.kind = "fill" ->
             CASE s.form = "fill" -> [i \in 1..s.n |-> ((s.v % 256) + 256) % 256]
               [] s.form = "zero" -> [i \in 1..s.n |-> 0]
